@@ -1,6 +1,6 @@
 CONSTANTS
   NG = 1
-  Sizes = {1, 2}
+  Sizes = {1}
   ResKinds = {"ok"}
   Copies = 1
   FitsCov = {1}
